@@ -98,6 +98,54 @@ def corrupt_parity_block(arr, c, lev, pos, rnd, shape="block"):
     return True
 
 
+def swap_file_blocks(w, a, b, bs):
+    """swap the contents of two data blocks (disk, rel, idx) of equal length and different bytes, keeping time-stamps.
+    -> True if swapped"""
+    (d1, r1, i1), (d2, r2, i2) = a, b
+    p1, p2 = w.full(d1, r1), w.full(d2, r2)
+    st1, st2 = os.lstat(p1), os.lstat(p2)
+    with open(p1, "rb") as f:
+        f.seek(i1 * bs)
+        x = f.read(bs)
+    with open(p2, "rb") as f:
+        f.seek(i2 * bs)
+        y = f.read(bs)
+    if not x or len(x) != len(y) or x == y:
+        return False
+    with open(p1, "r+b") as f:
+        f.seek(i1 * bs)
+        f.write(y)
+    with open(p2, "r+b") as f:
+        f.seek(i2 * bs)
+        f.write(x)
+    os.utime(p1, ns=(st1.st_atime_ns, st1.st_mtime_ns))
+    os.utime(p2, ns=(st2.st_atime_ns, st2.st_mtime_ns))
+    return True
+
+
+def swap_parity_blocks(arr, c, lev, pos1, pos2):
+    """swap two blocks of one parity level -> True if swapped (both present, different bytes)"""
+    l1, l2 = parity_locate(arr, c, lev, pos1), parity_locate(arr, c, lev, pos2)
+    if not l1 or not l2 or not os.path.exists(l1[0]) or not os.path.exists(l2[0]):
+        return False
+    bs = c.block_size
+    with open(l1[0], "rb") as f:
+        f.seek(l1[1])
+        x = f.read(bs)
+    with open(l2[0], "rb") as f:
+        f.seek(l2[1])
+        y = f.read(bs)
+    if len(x) < bs or len(y) < bs or x == y:
+        return False
+    with open(l1[0], "r+b") as f:
+        f.seek(l1[1])
+        f.write(y)
+    with open(l2[0], "r+b") as f:
+        f.seek(l2[1])
+        f.write(x)
+    return True
+
+
 def decode_devices(ints, cfg, nmax, allow_silent=True):
     """ints: list of (a, b) pairs -> list of victims (<= nmax distinct devices)"""
     nd, lv = cfg["ndisks"], cfg["levels"]
